@@ -140,6 +140,11 @@ def run_case(spec):
         mine = [e for e in evs if idx_of.get(id(e.event)) == j]
         roots, gmax = true_roots(ev, prob, t0, tf)
         gs = ev.gscale(tmax if ev.kind == "time" else ymax)
+        if ev.kind == "dstate" and ddy * float(np.sum(np.abs(ev.w))) * abs(ev.s) > 0.02 * gmax:
+            # the event sees the interpolant's SLOPE (error O(h^3) + node error/h): for coarse or low-order runs its roots are not those
+            # of the exact trajectory - only the observation-based clauses (1)-(3) apply
+            rec.bump("skipped_dstate_event_on_inaccurate_run", len(mine))
+            continue
         used = {}
         # uniqueness from the observations alone: two reports of one function closer than the location resolution
         mt = sorted(float(e.t) for e in mine)
